@@ -1,17 +1,22 @@
 import GV.Driver
 import GV.DriverExt
 import GV.EngineDriver
+import GV.ClientDriver
 open GV
 
 structure Full where
   base : Session := Session.new
   eng : EngSession := {}
+  cli : CliSession := {}
 
 def dispatchAll (st : Full) (line : String) : Full × String :=
   let (verb, head, payload) := splitRequest line
   if verb.startsWith "eng." then
     let (e', r) := engDispatch st.eng verb head payload
     ({ st with eng := e' }, r)
+  else if verb.startsWith "cli." then
+    let (c', r) := cliDispatch st.cli verb head payload
+    ({ st with cli := c' }, r)
   else
     let (b', r) := dispatch st.base line
     ({ st with base := b' }, r)
